@@ -97,6 +97,9 @@ func main() {
 		}
 		c.override, c.cur = "", "amd64"
 	}
+	if *tier == "thorough" && os.Getenv("CIRCLVERIF_NO_SELFTEST") == "" {
+		runSelfTest(c)
+	}
 	writeParamRecords()
 	os.Exit(c.finish(seed, start, *evid))
 }
